@@ -653,6 +653,15 @@ impl CommandHub {
             }
         };
 
+        // a request is answered once: it stops being in flight with its first final
+        // answer, so that a duplicate is not counted in place of another worker's
+        if matches!(
+            ResponseStatus::try_from(response.status),
+            Ok(ResponseStatus::Ok | ResponseStatus::Failure)
+        ) {
+            self.server.in_flight.remove(&response.id);
+        }
+
         let client = &mut task
             .job
             .client_token()
